@@ -79,7 +79,7 @@ Theorem tr_WriteInt8_equiv : forall data tag out, -128 <= data <= 127 -> 0 <= ta
   tr_WriteInt8 data tag out = Return (out ++ w_int8 data (Z.to_N tag), false).
 Proof.
   intros data tag out Hd Ht. unfold tr_WriteInt8, w_int8.
-  destruct (data =? 0) eqn:E.
+  assert (C : data = 0 \/ data <> 0) by lia. destruct C as [C|C]; decide_conds.
   - rewrite tr_WriteHead_equiv by (consts; lia). cbn [go_call bindc Bool.eqb negb]. reflexivity.
   - rewrite tr_WriteHead_equiv by (consts; lia). cbn [go_call bindc Bool.eqb negb].
     rewrite <- app_assoc. do 3 f_equal.
@@ -90,9 +90,9 @@ Theorem tr_WriteInt16_equiv : forall data tag out, -32768 <= data <= 32767 -> 0 
   tr_WriteInt16 data tag out = Return (out ++ w_int16 data (Z.to_N tag), false).
 Proof.
   intros data tag out Hd Ht. unfold tr_WriteInt16, w_int16. consts. fold_bool.
-  destruct ((-128 <=? data) && (data <=? 127))%bool eqn:E.
+  assert (C : -128 <= data <= 127 \/ (data < -128 \/ 127 < data)) by lia. destruct C as [C|C]; decide_conds.
   - rewrite wrapS_id by lia. rewrite tr_WriteInt8_equiv by lia. cbn [go_call bindc Bool.eqb negb]. reflexivity.
-  - rewrite tr_WriteHead_equiv by lia. cbn [go_call bindc Bool.eqb negb].
+  - cbn [bindc]. rewrite tr_WriteHead_equiv by lia. cbn [go_call bindc Bool.eqb negb].
     rewrite <- app_assoc. do 3 f_equal.
     change (go_emit_u16 (wrapU 16 data)) with (go_put_be 2 (wrapU 16 data)).
     rewrite (emit_wrapu 2 16) by reflexivity. reflexivity.
@@ -102,9 +102,9 @@ Theorem tr_WriteInt32_equiv : forall data tag out, -2147483648 <= data <= 214748
   tr_WriteInt32 data tag out = Return (out ++ w_int32 data (Z.to_N tag), false).
 Proof.
   intros data tag out Hd Ht. unfold tr_WriteInt32, w_int32. consts. fold_bool.
-  destruct ((-32768 <=? data) && (data <=? 32767))%bool eqn:E.
+  assert (C : -32768 <= data <= 32767 \/ (data < -32768 \/ 32767 < data)) by lia. destruct C as [C|C]; decide_conds.
   - rewrite wrapS_id by lia. rewrite tr_WriteInt16_equiv by lia. cbn [go_call bindc Bool.eqb negb]. reflexivity.
-  - rewrite tr_WriteHead_equiv by lia. cbn [go_call bindc Bool.eqb negb].
+  - cbn [bindc]. rewrite tr_WriteHead_equiv by lia. cbn [go_call bindc Bool.eqb negb].
     rewrite <- app_assoc. do 3 f_equal.
     change (go_emit_u32 (wrapU 32 data)) with (go_put_be 4 (wrapU 32 data)).
     rewrite (emit_wrapu 4 32) by reflexivity. reflexivity.
@@ -115,9 +115,9 @@ Theorem tr_WriteInt64_equiv : forall data tag out,
   tr_WriteInt64 data tag out = Return (out ++ w_int64 data (Z.to_N tag), false).
 Proof.
   intros data tag out Hd Ht. unfold tr_WriteInt64, w_int64. consts. fold_bool.
-  destruct ((-2147483648 <=? data) && (data <=? 2147483647))%bool eqn:E.
+  assert (C : -2147483648 <= data <= 2147483647 \/ (data < -2147483648 \/ 2147483647 < data)) by lia. destruct C as [C|C]; decide_conds.
   - rewrite wrapS_id by lia. rewrite tr_WriteInt32_equiv by lia. cbn [go_call bindc Bool.eqb negb]. reflexivity.
-  - rewrite tr_WriteHead_equiv by lia. cbn [go_call bindc Bool.eqb negb].
+  - cbn [bindc]. rewrite tr_WriteHead_equiv by lia. cbn [go_call bindc Bool.eqb negb].
     rewrite <- app_assoc. do 3 f_equal.
     change (go_emit_u64 (wrapU 64 data)) with (go_put_be 8 (wrapU 64 data)).
     rewrite (emit_wrapu 8 64) by reflexivity. reflexivity.
